@@ -355,8 +355,62 @@ CORPUS = [
     "f::<fn(A) -> B, C>(), y", "<M<K, fn() -> V>>::new(), y", "|f: fn(A) -> B, g| f, y",
     "x=*y, z", "x=-1, y", "x=&y, z", "x=!y, z", "x=<A as T<B, C>>::X, y", "x=|a, b| a, y", "x=::std::f(), y",
     "x =y, z", "x= y, z", "x=y", "x=(y), z",
+    # scanner state must not leak from one balanced scan to the next
+    "1u32 << <u8 as Limit<u8, u8>>::SHIFT, _0", "0 < *_1 && *_1 < <u8 as Limit<u8, u8>>::MAX, _0,",
+    "a < b, 1 << <u8 as L<u8, u8>>::X, _0", "a < 1 << 2 << f::<A, B>(), _0", "a << b << |p, q| p, _0",
     "a::<B, C>::d::<E, F>(), g", "a -> b, c", "a => b, c", "a <- b, c", "f::<{ a < b }, 3>(), x", "a < b > ::c, d",
 ]
+
+
+SENSITIVE = [   # constructs whose inner comma only stays inside the argument if the scanner balances them correctly
+    "< u8 as L < u8 , u8 >> :: X", "< M < K , V > > :: new ( 1 , 2 )", "f ::< A , B > ( )", "y . m ::< A , B > ( 1 )",
+    "Vec ::< ( A , B ) , C > :: new ( )", "| p , q | p",
+]
+UNBALANCED = ["<", "<=", "<<", "<<=", ">", ">>"]
+
+
+def unbalanced_then(ops, last, mid=None):
+    """`a OP b OP c ... OP last` made valid Rust: comparisons are not chained (a new `&&` clause is opened),
+    `<<=` only leads; `mid`, if given, is used as the operand after the first operator"""
+    s = "x0"
+    has_cmp = False
+    for i, op in enumerate(ops):
+        if op == "<<=" and i > 0:
+            op = "<<"
+        if op in ("<", "<=", ">") and has_cmp:
+            s += " && x%d" % (i + 10)
+            has_cmp = False
+        if op in ("<", "<=", ">"):
+            has_cmp = True
+        operand = last if i == len(ops) - 1 else (mid if (mid and i == 0) else ("* x%d" % (i + 1) if i % 2 else "%du32" % (i + 1)))
+        s += " %s %s" % (op, operand)
+    return s
+
+
+def angle_state_inputs(rng, n_triples):
+    """several unbalanced `<` (comparison, shift) followed IN THE SAME ARGUMENT by a construct that must be balanced,
+    in all orders and counts; also after an earlier argument that leaves `<` unbalanced"""
+    import itertools
+    seqs = [list(t) for k in (1, 2) for t in itertools.product(UNBALANCED[:4], repeat=k)]
+    seqs += [[rng.choice(UNBALANCED) for _ in range(3)] for _ in range(n_triples)]
+    seqs += [[">", "<", "<"], ["<", ">", "<", "<"], ["<<", "<<", "<<"], ["<", "<", "<"], ["<=", "<<", "<"]]
+    out = []
+    for ops in seqs:
+        for sidx, sens in enumerate(SENSITIVE):
+            arg = unbalanced_then(ops, sens)
+            out.append(arg + ", _0")
+            ctx = rng.randrange(5)
+            if ctx == 0:
+                out.append("p < q, " + arg + ", _0,")
+            elif ctx == 1:
+                out.append("1 << 2 << n, a <= b, " + arg)
+            elif ctx == 2:      # a balanced construct first, then the unbalanced operators, then another construct
+                out.append(unbalanced_then(ops, sens, mid=SENSITIVE[(sidx + 1) % len(SENSITIVE)].replace("| p , q | p", "( | p , q | p )")) + ", _0")
+            elif ctx == 3:
+                out.append(arg + ", " + unbalanced_then(ops[::-1], SENSITIVE[(sidx + 2) % len(SENSITIVE)]) + ", _0")
+            else:
+                out.append("name = " + arg + ", _1")
+    return out
 
 
 def make_inputs(chk, tier):
@@ -375,6 +429,8 @@ def make_inputs(chk, tier):
                 perm = rng.sample(cases, k)
                 src = ",".join(perm) + ("," if rng.random() < 0.5 else "")
                 inputs.append({"src": src, "origin": "unit-test-perm"})
+    for src in angle_state_inputs(rng, 12 if tier == "quick" else 120):
+        inputs.append({"src": src, "origin": "angle-state"})
     g = G.Gen(rng, 4)
     n_gen = 2600 if tier == "quick" else 30000
     gen = []
@@ -626,6 +682,8 @@ ATTR_OF_DERIVE = {"Display": "display", "Debug": "debug", "LowerHex": "lower_hex
 SHAPES = [  # argument expressions that are NOT a bare field (F = a field identifier); no recorded design limit inside
     "{F} . x", "& {F}", "* {F}", "{F} + 1", "( {F} , 1 )", "[ {F} , {F} ]", "f ::< A , B > ( {F} )",
     "< A as T < B , C >> :: X", "& < A as T < B , C >> :: X", "1 + < A as T < B , C >> :: X", "- < A as T < B , C >> :: f ( {F} )",
+    "1u32 << < A as T < B , C >> :: X", "0 < * {F} && * {F} < < A as T < B , C >> :: X", "1 << 2 << f ::< A , B > ( {F} )",
+    "{F} <= 1 && 2 < x . m ::< A , B > ( )", "f ::< A , B > ( ) < 1 << < A as T < B , C >> :: X",
     "{F} . m ::< A , B > ( 1 , 2 )", "tag ::< 1 , 2 > ( )", "g ::< 'c' , \"s\" , 3 > ( {F} )", "Vec ::< fn ( A ) -> B , C > :: new ( )",
     "| p , q | p", "| p : M < K , V > , q | {F}", "1", "\"s, t\"", "{F} == {F}", "{F} < 1", "{F} . 0", "m ! ( {F} , 2 )",
     "{ {F} ; 1 }", "if {F} . ok ( ) { 1 } else { 2 }", "{F} as u8", "{F} ?", "& mut {F}", "self . len ( )", "{F} ( 1 , 2 )",
